@@ -157,6 +157,14 @@ pub fn combine_two(i: usize, n: usize, t1: (VShare, VShare, VShare), t2: (VShare
     Ok((VShare::from(&r.0), VShare::from(&r.1), VShare::from(&r.2)))
 }
 
+/// `faand::combine_bucket` on plain-integer shares (pure function; C10): any bucket size.
+pub fn combine_bucket(i: usize, n: usize, bucket: &[(VShare, VShare, VShare)], d: Vec<bool>) -> Result<(VShare, VShare, VShare), String> {
+    let owned: Vec<(Share, Share, Share)> = bucket.iter().map(|t| (Share::from(&t.0), Share::from(&t.1), Share::from(&t.2))).collect();
+    let refs: Vec<(&Share, &Share, &Share)> = owned.iter().map(|t| (&t.0, &t.1, &t.2)).collect();
+    let r = crate::mpc::faand::combine_bucket_v(i, n, refs, d).map_err(|e| format!("{e:?}"))?;
+    Ok((VShare::from(&r.0), VShare::from(&r.1), VShare::from(&r.2)))
+}
+
 pub(crate) fn tap_share_slice(kind: &str, party: usize, shares: &[Share]) {
     let mut out = vec![];
     for s in shares {
